@@ -1,4 +1,5 @@
 // djsim CLI: sweep | serve | gen | exec | smoke
+#include <malloc.h>
 #include <unistd.h>
 
 #include <csignal>
@@ -87,18 +88,52 @@ static void on_alarm(int)
     _exit(78);
 }
 
+// Fill freshly allocated heap blocks and a large part of the stack with a
+// pattern, so that a read of indeterminate memory gives a value that depends
+// on the pattern (and on nothing else).
+static void __attribute__((noinline)) poison_stack(int v)
+{
+    volatile char buf[768 * 1024];
+    for (size_t i = 0; i < sizeof buf; i += 1)
+        buf[i] = (char)v;
+}
+static void poison(int v)
+{
+    mallopt(M_PERTURB, v);
+    poison_stack(v);
+}
+
 static Json run_plan(const Plan& p, bool trace)
 {
     alarm(60);
     Json res;
+    std::string first_hash;
+    if (p.cfg.twice)
+    {
+        poison(0x5A);
+        World w(p);
+        w.run();
+        first_hash = hex64(w.log.value());
+        poison(0xA5);
+    }
     {
         World w(p);
         w.tracing = trace;
         w.run();
+        if (p.cfg.twice)
+        {
+            w.probes.hit("executed_twice");
+            if (hex64(w.log.value()) != first_hash)
+                w.report("C15", "C15|twice|" + w.fam() + "|indeterminate-memory",
+                         "two executions of the same plan over differently poisoned heap and stack memory stored or returned different "
+                         "bytes: the library read indeterminate (uninitialised) memory");
+        }
         res = w.result_json();
         if (g_taps.lib_conns.size() != 0)
             res.set("leaked_conns", (long long)g_taps.lib_conns.size());
     }
+    if (p.cfg.twice)
+        mallopt(M_PERTURB, 0);
     alarm(0);
     res.set("digest", hex64(p.digest()));
     return res;
